@@ -168,6 +168,8 @@ def search(chk, broken):
             dm0 = pbc.DragModel(0.3, pbc.TableG7)
             sinks = {
                 'Angular': [lambda: pbc.Wind(U.MPS(3), q, U.Meter(100)), lambda: pbc.Weapon(U.Inch(2), 12, q),
+                            # ... and a later call that REPLACES the weapon's zero must bind a new quantity, not write into the caller's
+                            lambda: pbc.Calculator().set_weapon_zero(pbc.Shot(pbc.Weapon(U.Inch(2), 12, q), pbc.Ammo(dm0, U.MPS(800))), U.Yard(rng.choice([100, 300]))),
                             lambda: pbc.Shot(pbc.Weapon(), pbc.Ammo(dm0, U.MPS(800)), look_angle=q),
                             lambda: pbc.Shot(pbc.Weapon(), pbc.Ammo(dm0, U.MPS(800)), relative_angle=q, cant_angle=q),
                             lambda: pbc.Sight('FFP', None, abs(q.raw_value) and type(q)(abs(q.unit_value) + 0.1, q.units), U.Mil(0.1))],
@@ -179,7 +181,7 @@ def search(chk, broken):
                 'Weight': [lambda: pbc.DragModel(0.3, pbc.TableG7, q, U.Inch(0.3), U.Inch(1.2))],
                 'Energy': [],
             }.get(d, [])
-            for sink in rng.sample(sinks, min(len(sinks), 2)):
+            for sink in rng.sample(sinks, min(len(sinks), 3)):
                 try:
                     sink()
                     handed = ' and being passed to library constructors'
